@@ -84,6 +84,30 @@ fn queues_must_be_empty(what: &str, snap: Snapshot) {
     }
 }
 
+use crate::lin::{self, LinOp};
+
+const EV_SET: u32 = 0;
+const EV_RESET: u32 = 1;
+const EV_IS_SET: u32 = 2;
+const EV_POLL: u32 = 3;
+const EV_DROP: u32 = 4;
+
+#[derive(Default)]
+struct History {
+    seq: AtomicU64,
+    ops: StdMutex<Vec<LinOp>>,
+}
+impl History {
+    fn stamp(&self) -> u64 {
+        self.seq.fetch_add(1, SeqCst)
+    }
+    fn record(&self, inv: u64, thread: u32, kind: u32, arg: u32, res: u32) {
+        let ret = self.stamp();
+        self.ops.lock().unwrap().push(LinOp { inv, ret, thread, kind, arg, res });
+    }
+}
+
+
 fn base_cfg(rng: &mut Rng, c: &mut Cfg) {
     c.insert("stick".into(), *rng.pick(&[0i64, 30, 60, 85]));
     c.insert("threads".into(), rng.range(2, 4));
@@ -93,6 +117,10 @@ fn base_cfg(rng: &mut Rng, c: &mut Cfg) {
 
 // ================================================================ T-mutex
 
+const MX_LOCK: u32 = 0;
+const MX_UNLOCK: u32 = 1;
+const MX_IS_LOCKED: u32 = 2;
+
 fn t_mutex(cfg: &Cfg) {
     let fair = cfg_get(cfg, "fair", 0) != 0;
     let n = cfg_get(cfg, "threads", 3) as usize;
@@ -101,11 +129,18 @@ fn t_mutex(cfg: &Cfg) {
     let m = Arc::new(GenericMutex::<M, u64>::new(0, fair));
     let in_cs = Arc::new(AtomicBool::new(false));
     let succ = Arc::new(AtomicU64::new(0));
+    let hist = Arc::new(History::default());
     let mut hs = Vec::new();
     for i in 0..n {
-        let (m, in_cs, succ) = (m.clone(), in_cs.clone(), succ.clone());
+        let (m, in_cs, succ, hist) = (m.clone(), in_cs.clone(), succ.clone(), hist.clone());
         hs.push(thread::spawn(move || {
             for _ in 0..iters {
+                if draw(100) < 20 {
+                    let inv = hist.stamp();
+                    let v = m.is_locked();
+                    hist.record(inv, i as u32, MX_IS_LOCKED, 0, v as u32);
+                }
+                let acq_inv = hist.stamp();
                 let budget = if draw(100) < p_budget { Some(draw(4) as u32) } else { None };
                 let use_try = draw(100) < 15;
                 let mut g = if use_try {
@@ -122,6 +157,8 @@ fn t_mutex(cfg: &Cfg) {
                         None => block_on(m.lock()),
                     }
                 };
+                // the acquisition took effect somewhere between the start of the attempt and now
+                hist.record(acq_inv, i as u32, MX_LOCK, 0, 0);
                 if in_cs.swap(true, SeqCst) {
                     violation("C02", "two-in-critical-section", format!("thread {} holds a guard while another thread is inside the critical section", i));
                 }
@@ -130,12 +167,34 @@ fn t_mutex(cfg: &Cfg) {
                 *g = v + 1;
                 succ.fetch_add(1, SeqCst);
                 in_cs.store(false, SeqCst);
+                let inv = hist.stamp();
                 drop(g);
+                hist.record(inv, i as u32, MX_UNLOCK, 0, 0);
             }
         }));
     }
     for h in hs {
         h.join().unwrap();
+    }
+    // C02 under threads: lock / unlock / is_locked() observations must have a sequential explanation
+    {
+        let ops = hist.ops.lock().unwrap().clone();
+        if ops.len() <= 60 {
+            let step = |st: &bool, op: &LinOp| -> Option<bool> {
+                match op.kind {
+                    MX_LOCK => if *st { None } else { Some(true) },
+                    MX_UNLOCK => if *st { Some(false) } else { None },
+                    _ => if (op.res != 0) == *st { Some(*st) } else { None },
+                }
+            };
+            if let Err(k) = lin::check(&ops, false, &step) {
+                let mut sorted = ops.clone();
+                sorted.sort_by_key(|o| o.inv);
+                let names = ["lock", "unlock", "is_locked"];
+                let txt: Vec<String> = sorted.iter().map(|o| format!("[{}..{}] t{} {}={}", o.inv, o.ret, o.thread, names[o.kind as usize], o.res)).collect();
+                violation("C02", "not-linearizable", format!("lock acquisitions, guard drops and is_locked() results have no sequential explanation (at most {} of {} operations can be ordered): {}", k, ops.len(), txt.join("; ")));
+            }
+        }
     }
     if m.is_locked() {
         violation("C02", "locked-after-all-dropped", "is_locked() is true although every guard was dropped".into());
@@ -160,6 +219,10 @@ fn cfg_mutex(rng: &mut Rng) -> Cfg {
 
 // ================================================================ T-sem
 
+const SM_ACQ: u32 = 0;
+const SM_REL: u32 = 1;
+const SM_PERMITS: u32 = 2;
+
 fn t_sem(cfg: &Cfg) {
     let fair = cfg_get(cfg, "fair", 0) != 0;
     let n = cfg_get(cfg, "threads", 3) as usize;
@@ -171,22 +234,31 @@ fn t_sem(cfg: &Cfg) {
     let sem = Arc::new(GenericSemaphore::<M>::new(fair, p0 as usize));
     let circ = Arc::new(AtomicU64::new(p0));
     let held = Arc::new(AtomicU64::new(0));
+    let hist = Arc::new(History::default());
     let mut hs = Vec::new();
     {
-        let (sem, circ) = (sem.clone(), circ.clone());
+        let (sem, circ, hist) = (sem.clone(), circ.clone(), hist.clone());
         hs.push(thread::spawn(move || {
             for _ in 0..grants {
                 thread::yield_now();
                 circ.fetch_add(1, SeqCst);
+                let inv = hist.stamp();
                 sem.release(1);
+                hist.record(inv, 99, SM_REL, 1, 0);
             }
         }));
     }
     for i in 0..n {
-        let (sem, circ, held) = (sem.clone(), circ.clone(), held.clone());
+        let (sem, circ, held, hist) = (sem.clone(), circ.clone(), held.clone(), hist.clone());
         hs.push(thread::spawn(move || {
             for _ in 0..iters {
+                if draw(100) < 20 {
+                    let inv = hist.stamp();
+                    let v = sem.permits();
+                    hist.record(inv, i as u32, SM_PERMITS, 0, v as u32);
+                }
                 let want = draw(4);
+                let acq_inv = hist.stamp();
                 // a request that can never be satisfied always carries a budget
                 let budget = if want > total || draw(100) < p_budget { Some(draw(5) as u32) } else { None };
                 let rel = if draw(100) < 20 {
@@ -204,18 +276,41 @@ fn t_sem(cfg: &Cfg) {
                         None => block_on(sem.acquire(want as usize)),
                     }
                 };
+                hist.record(acq_inv, i as u32, SM_ACQ, want as u32, 0);
                 let h = held.fetch_add(want, SeqCst) + want;
                 if h > circ.load(SeqCst) {
                     violation("C05", "over-grant", format!("thread {} acquired {} permit(s): {} held in total but only {} exist", i, want, h, circ.load(SeqCst)));
                 }
                 thread::yield_now();
                 held.fetch_sub(want, SeqCst);
+                let inv = hist.stamp();
                 drop(rel);
+                hist.record(inv, i as u32, SM_REL, want as u32, 0);
             }
         }));
     }
     for h in hs {
         h.join().unwrap();
+    }
+    // C05 under threads: acquisitions, releases and permits() observations must have a sequential explanation
+    {
+        let ops = hist.ops.lock().unwrap().clone();
+        if ops.len() <= 60 {
+            let step = |st: &u64, op: &LinOp| -> Option<u64> {
+                match op.kind {
+                    SM_ACQ => if *st >= op.arg as u64 { Some(*st - op.arg as u64) } else { None },
+                    SM_REL => Some(*st + op.arg as u64),
+                    _ => if op.res as u64 == *st { Some(*st) } else { None },
+                }
+            };
+            if let Err(k) = lin::check(&ops, p0, &step) {
+                let mut sorted = ops.clone();
+                sorted.sort_by_key(|o| o.inv);
+                let names = ["acquire", "release", "permits"];
+                let txt: Vec<String> = sorted.iter().map(|o| format!("[{}..{}] t{} {}({})={}", o.inv, o.ret, o.thread, names[o.kind as usize], o.arg, o.res)).collect();
+                violation("C05", "not-linearizable", format!("acquisitions, releases and permits() results have no sequential explanation (at most {} of {} operations can be ordered; initial permits {}): {}", k, ops.len(), p0, txt.join("; ")));
+            }
+        }
     }
     if sem.permits() as u64 != total {
         violation("C05", "permits-not-conserved", format!("everything was dropped: permits() = {} but initial + released = {}", sem.permits(), total));
@@ -604,29 +699,6 @@ fn t_chan_shared(cfg: &Cfg) {
 }
 
 // ================================================================ T-event (linearizability against the event model)
-
-use crate::lin::{self, LinOp};
-
-const EV_SET: u32 = 0;
-const EV_RESET: u32 = 1;
-const EV_IS_SET: u32 = 2;
-const EV_POLL: u32 = 3;
-const EV_DROP: u32 = 4;
-
-#[derive(Default)]
-struct History {
-    seq: AtomicU64,
-    ops: StdMutex<Vec<LinOp>>,
-}
-impl History {
-    fn stamp(&self) -> u64 {
-        self.seq.fetch_add(1, SeqCst)
-    }
-    fn record(&self, inv: u64, thread: u32, kind: u32, arg: u32, res: u32) {
-        let ret = self.stamp();
-        self.ops.lock().unwrap().push(LinOp { inv, ret, thread, kind, arg, res });
-    }
-}
 
 /// logs every poll (and the drop) of a wait future as one operation of the history
 struct LoggedWait<F> {
